@@ -23,6 +23,7 @@ type coreGen struct {
 	// a recursive function uses only its parameters: a local of an outer activation would be found by
 	// the inner one through the frame chain (dynamic scoping, which the statement does not fix)
 	recursive bool
+	inRule    bool     // inside a pattern rule: $ and $index are bound
 	fns       []string // functions that may be called (already generated)
 	nloop     int
 }
@@ -54,6 +55,12 @@ func (g *coreGen) intVar() string {
 }
 
 func (g *coreGen) intExpr(d int) Node {
+	if g.inRule && g.r.Intn(4) == 0 {
+		if g.r.Intn(3) == 0 {
+			return cn("index")
+		}
+		return cn("dollar")
+	}
 	if d <= 0 {
 		if g.r.Intn(2) == 0 {
 			return g.num(g.r.Intn(10))
@@ -273,6 +280,9 @@ func (g *coreGen) stmt(d int) Node {
 		if g.r.Intn(12) == 0 {
 			return cn("exit")
 		}
+		if g.r.Intn(5) == 0 {
+			return cn("if", "c", map[string]any(g.boolExpr(1)), "th", map[string]any(cn("block", "b", []any{map[string]any(cn("next"))})), "el", map[string]any(cn("none")))
+		}
 		return simple()
 	}
 }
@@ -330,15 +340,49 @@ func (g *coreGen) program() Node {
 		stmts = append(stmts, map[string]any(cn("expr", "e", map[string]any(cn("asg", "n", v, "op", "=", "e", map[string]any(g.num(1+g.r.Intn(6))))))))
 	}
 	stmts = append(stmts, map[string]any(cn("expr", "e", map[string]any(cn("asg", "n", "s0", "op", "=", "e", map[string]any(cn("str", "v", "ab")))))))
-	n := 3 + g.r.Intn(6)
+	n := 1 + g.r.Intn(4)
 	for i := 0; i < n; i++ {
 		stmts = append(stmts, map[string]any(g.stmt(3)))
 	}
-	stmts = append(stmts, map[string]any(cn("print", "args", []any{map[string]any(cn("str", "v", "end")), map[string]any(cn("var", "n", "g0")), map[string]any(cn("var", "n", "g1")), map[string]any(cn("var", "n", "s0"))})))
 	if fns == nil {
 		fns = []any{}
 	}
-	return Node{"fns": fns, "main": map[string]any(cn("block", "b", stmts))}
+	// pattern rules over the input array: patterns and bodies use $ and $index
+	rules := []any{}
+	g.inRule = true
+	for k := g.r.Intn(4); k > 0; k-- {
+		pat := map[string]any(cn("none"))
+		if g.r.Intn(3) > 0 {
+			pat = map[string]any(g.anyExpr(2))
+		}
+		var body Node
+		if g.r.Intn(5) == 0 {
+			body = cn("block", "b", []any{map[string]any(cn("print", "args", []any{map[string]any(cn("dollar"))}))}) // a rule without a body prints $
+			body["bare"] = true
+		} else {
+			body = g.block(2, 1+g.r.Intn(3))
+		}
+		rules = append(rules, map[string]any{"pat": pat, "body": map[string]any(body)})
+	}
+	g.inRule = false
+	end := []any{map[string]any(cn("print", "args", []any{map[string]any(cn("str", "v", "end")), map[string]any(cn("var", "n", "g0")), map[string]any(cn("var", "n", "g1")), map[string]any(cn("var", "n", "s0")), map[string]any(cn("dollar"))}))}
+	if g.r.Intn(2) == 0 {
+		end = append([]any{map[string]any(g.stmt(2))}, end...)
+	}
+	input := []any{}
+	for k := g.r.Intn(5); k > 0; k-- {
+		switch g.r.Intn(8) {
+		case 0:
+			input = append(input, map[string]any(cn("null")))
+		case 1:
+			input = append(input, map[string]any(cn("bool", "v", g.r.Intn(2) == 0)))
+		case 2:
+			input = append(input, map[string]any(cn("str", "v", g.pick("a", "", "7", "bc"))))
+		default:
+			input = append(input, map[string]any(cn("num", "v", g.r.Intn(9))))
+		}
+	}
+	return Node{"fns": fns, "begin": map[string]any(cn("block", "b", stmts)), "rules": rules, "end": map[string]any(cn("block", "b", end)), "input": input}
 }
 
 // ---- rendering to jqawk text (every composite expression fully parenthesised)
@@ -355,6 +399,10 @@ func coreExpr(e Node) string {
 		return "null"
 	case "var":
 		return nstr(e, "n")
+	case "dollar":
+		return "$"
+	case "index":
+		return "$index"
 	case "bin":
 		return "(" + coreExpr(nnode(e, "l")) + " " + nstr(e, "op") + " " + coreExpr(nnode(e, "r")) + ")"
 	case "un":
@@ -410,7 +458,7 @@ func coreStmt(s Node, depth int) string {
 		return in + "while (" + coreExpr(nnode(s, "c")) + ") " + strings.TrimLeft(coreStmt(nnode(s, "b"), depth), " ")
 	case "for":
 		return in + "for (" + coreExpr(nnode(s, "init")) + "; " + coreExpr(nnode(s, "c")) + "; " + coreExpr(nnode(s, "post")) + ") " + strings.TrimLeft(coreStmt(nnode(s, "b"), depth), " ")
-	case "break", "continue", "exit":
+	case "break", "continue", "exit", "next":
 		return in + nstr(s, "k")
 	case "return":
 		e := nnode(s, "e")
@@ -431,8 +479,53 @@ func coreProgramText(p Node) string {
 		}
 		sb.WriteString("function " + nstr(f, "name") + "(" + strings.Join(params, ", ") + ") " + strings.TrimLeft(coreStmt(nnode(f, "body"), 0), " ") + "\n")
 	}
-	sb.WriteString("BEGIN " + strings.TrimLeft(coreStmt(nnode(p, "main"), 0), " ") + "\n")
+	sb.WriteString("BEGIN " + strings.TrimLeft(coreStmt(nnode(p, "begin"), 0), " ") + "\n")
+	rules := nlist(p, "rules")
+	headOf := func(r Node) string {
+		if pat := nnode(r, "pat"); nstr(pat, "k") != "none" {
+			return coreExpr(pat) + " "
+		}
+		return ""
+	}
+	for ri, r := range rules {
+		head := headOf(r)
+		body := nnode(r, "body")
+		// a rule without a body is only written as such when what follows cannot be read as its
+		// continuation: "(" would make it a call, "{" its body
+		nextSafe := ri == len(rules)-1
+		if !nextSafe {
+			nh := headOf(rules[ri+1])
+			nextSafe = nh != "" && !strings.HasPrefix(nh, "(")
+		}
+		if nbool(body, "bare") && nextSafe {
+			if head == "" {
+				head = "true " // a rule needs a pattern or a body
+			}
+			sb.WriteString(strings.TrimRight(head, " ") + "\n")
+			continue
+		}
+		sb.WriteString(head + strings.TrimLeft(coreStmt(body, 0), " ") + "\n")
+	}
+	sb.WriteString("END " + strings.TrimLeft(coreStmt(nnode(p, "end"), 0), " ") + "\n")
 	return sb.String()
+}
+
+// coreInput renders the input array as JSON.
+func coreInput(p Node) string {
+	parts := []string{}
+	for _, x := range nlist(p, "input") {
+		switch nstr(x, "k") {
+		case "num":
+			parts = append(parts, strconv.Itoa(nint(x, "v")))
+		case "str":
+			parts = append(parts, strconv.Quote(nstr(x, "v")))
+		case "bool":
+			parts = append(parts, strconv.FormatBool(nbool(x, "v")))
+		default:
+			parts = append(parts, "null")
+		}
+	}
+	return "[" + strings.Join(parts, ", ") + "]"
 }
 
 var reCore = regexp.MustCompile(`"CORE", (\d+), (TRUE|FALSE), (\d+), "([^"]*)"`)
@@ -450,7 +543,7 @@ func checkCore(c *Ctx, n int, seedMix int64) {
 		raw, _ := json.Marshal(g.program())
 		progs[i] = decodeNode(raw)
 		// the pre-increment rendering uses a scratch variable pv: harmless to the model (not printed)
-		jobs[i] = Job{Kind: "run", Prog: []byte(coreProgramText(progs[i])), Budget: 300000}
+		jobs[i] = Job{Kind: "run", Prog: []byte(coreProgramText(progs[i])), Files: []FileIn{{Name: "in.json", Data: []byte(coreInput(progs[i]))}}, Budget: 300000}
 	}
 	var sb strings.Builder
 	var idx []int
